@@ -35,13 +35,14 @@ impl TypeVftable {
     }
 }
 
-/// Given a parsed size/list of functions, construct the list of semantic functions
+/// Given a parsed size/list of functions, construct the list of semantic functions.
+/// Returns `Ok(None)` if one of the functions mentions a type that is not available yet.
 pub fn convert_grammar_functions_to_semantic_functions(
     type_registry: &TypeRegistry,
     module: &Module,
     size: Option<usize>,
     functions: &[grammar::Function],
-) -> anyhow::Result<Vec<Function>> {
+) -> anyhow::Result<Option<Vec<Function>>> {
     // Insert function, with padding if necessary
     let mut output = vec![];
     for function in functions {
@@ -68,8 +69,11 @@ pub fn convert_grammar_functions_to_semantic_functions(
             }
             make_padding_functions(&mut output, index);
         }
-        let function = function::build(type_registry, &module.scope(), true, function)
-            .with_context(|| format!("while building vftable function `{}`", function.name))?;
+        let Some(function) = function::build(type_registry, &module.scope(), true, function)
+            .with_context(|| format!("while building vftable function `{}`", function.name))?
+        else {
+            return Ok(None);
+        };
         output.push(function);
     }
 
@@ -102,7 +106,7 @@ pub fn convert_grammar_functions_to_semantic_functions(
         }
     }
 
-    Ok(output)
+    Ok(Some(output))
 }
 
 pub fn build(
